@@ -44,13 +44,14 @@ void check_writer_page_stats(sim::RunCtx& ctx) {
     ctx.evals = std::max<uint64_t>(pages, 1);
 }
 
-static bool matches(int type, const std::string& v, int op, const std::string& probe) {
+static bool matches(const Col& col, const std::string& v, int op, const std::string& probe) {
+    int type = col.type;
     if (type == T_F32 || type == T_F64) {
         double a, b;
         if (type == T_F32) { float x, y; memcpy(&x, v.data(), 4); memcpy(&y, probe.data(), 4); a = x; b = y; } else { memcpy(&a, v.data(), 8); memcpy(&b, probe.data(), 8); }
         switch (op) { case 0: return a == b; case 1: return a != b; case 2: return a < b; case 3: return a <= b; case 4: return a > b; default: return a >= b; }
     }
-    int c = ref::cmp_values(type, v, probe);
+    int c = ref::cmp_ordered(col, v, probe);      // the column's own order: unsigned for INTEGER(.., false), signed big-endian for DECIMAL on FLBA
     switch (op) { case 0: return c == 0; case 1: return c != 0; case 2: return c < 0; case 3: return c <= 0; case 4: return c > 0; default: return c >= 0; }
 }
 
@@ -69,6 +70,15 @@ static std::string neighbour(int type, const std::string& v, int dir, sim::Rng& 
 
 void check_pruning(sim::RunCtx& ctx) {
     Table t = peergen::gen_flat_any(5, 6, false);
+    // some columns carry a logical type whose order is not the physical type's: unsigned integers, decimals in fixed-length byte arrays
+    // (the values stay what they are; only the order of statistics and predicates changes)
+    for (auto& k : t.root.kids) if (sim::draw(4) == 0) {
+        if (k.type == T_I32) { k.logical = 10; k.lp1 = 32; k.lp2 = 0; }
+        else if (k.type == T_I64) { k.logical = 10; k.lp1 = 64; k.lp2 = 0; }
+        else if (k.type == T_FLBA) { k.logical = 5; k.lp2 = 1 + (int)sim::draw((uint32_t)(2 * k.tlen)); k.lp1 = 0; }
+        else if (k.type == T_BA) { k.logical = 5; k.lp2 = 9; k.lp1 = 2; }
+    }
+    derive_leaves(t);
     peergen::LayoutOpts lo; lo.stats = true;
     ref::Layout L = peergen::gen_layout(t, lo);
     for (auto& cl : L.chunks) if (sim::draw(8) != 7) cl.chunk_stats = 1 + (int)sim::draw(3);     // mostly with statistics
@@ -121,7 +131,7 @@ void check_pruning(sim::RunCtx& ctx) {
         exec::Buf pv(probe.size()); memcpy(pv.get(), probe.data(), probe.size());
         for (int g = 0; g < ng; g++) {
             const Chunk& ch = t.rgs[(size_t)g].cols[c];
-            for (auto& v : ch.vals) if (matches(col.type, v, op, probe)) { truth[(size_t)g] = 1; break; }
+            for (auto& v : ch.vals) if (matches(col, v, op, probe)) { truth[(size_t)g] = 1; break; }
             if (!ch.vals.empty()) any_rows = true;
             bool mm = false;
             carquet_status_t st = cq::reader_row_group_matches(o->r, g, (int)c, (carquet_compare_op_t)op, pv.get(), (int32_t)probe.size(), &mm);
